@@ -81,15 +81,15 @@ CLAIMED = {
                      'constituent calls rather than end to end.'),
     'C07': dict(
         category='proof',
-        technique='concolic symbolic execution of the real spline kernels on exact z3 Real proxies; per-path polynomial identities decided by z3 (nlsat)',
+        technique='concolic symbolic execution of the real spline kernels on exact z3 Real proxies; per-path polynomial identities decided by z3 (nlsat); cu_find_span additionally on binary64 proxies (z3 QF_FP)',
         text='Bounded solver proof in exact real arithmetic: the real kernels and dispatching classes run with the evaluation '
              'point(s) and all coefficients symbolic; the span search forks on x, and on every path (cell, knot or end point) z3 '
              'decides that value and first derivative equal an independent Cox-de Boor oracle on the knot vector the path uses, that '
              'the basis is non-negative, sums to one, derivatives sum to zero, span in range, periodic closure (value; slope for '
-             'degree>=2), and that array / in-place / tensor-grid entry points and BSplines[i] agree with the oracle. Models are '
+             'degree>=2), and that array / in-place / tensor-grid / scattered-point (output prefilled with arbitrary values) entry points and BSplines[i] agree with the oracle. The span search of the uniform-cubic fast path is also run on binary64 proxies: for every double in the closed domain of the listed domains span and offset stay in range (QF_FP). Models are '
              'searched in grades (1e-6,1e-9,1e-12) and replayed on the float code.',
         design_ref='DESIGN.md 4 C07',
-        note=TRUST + 'Not claimed: IEEE rounding (e.g. int((x-xmin)/dx) one ulp inside a cell edge). Bounds: degrees 1-5 (thorough '
+        note=TRUST + 'Not claimed: IEEE rounding of the basis recursion and sums (the fast-path span search is bit-precise on the listed domains only). Bounds: degrees 1-5 (thorough '
                      '1-10), listed rational knot families, cells <= 8, 2-D degrees <= 5; additionally symbolic break points through the kernels: all of them for degrees 1-2 (and degree 3 with <= 2 cells, thorough), one interior break point for degree 3 (and 4 clamped, thorough).'),
     'C08': dict(
         category='proof',
@@ -191,7 +191,7 @@ CLAIMED = {
         text='Bounded solver proof in exact reals for all fields: the sum over the ranks (of one replica) of l2^2, l1, particle number and '
              'kinetic energy equals the serial trapezoid/rectangle quadrature of the assembled global field in every 4-D layout and every '
              'layout of the driver\'s 3-D swapper (replicated ones included); min/max reported at the drawing rank equal the global '
-             'min/max for the whole grid and for every fixed-index slice (dimension and index forked by the solver; ranks without the '
+             'min/max for the whole grid and for every slice with one or two fixed indices (dimensions and indices forked by the solver; ranks without the '
              'slice contribute the neutral element); unit field gives the analytic volume factor; the collector stores step k in slot '
              'k mod saveStep and reduces to rank 0.',
         design_ref='DESIGN.md 4 C17',
